@@ -99,6 +99,56 @@ start :: fn do
     print(E.C == E.C)
 end
 '''})
+    # composite values whose components are the SAME variable (or variables compared / assigned to each other before): structure with sharing
+    out.append({"name": "laws_shared_components", "role": "structural-compare-order-arith(shared-components)", "dom": {"a1": (0, 2), "a2": (0, 2)}, "text": DECLS + '''
+start :: fn do
+    x := ?a1
+    y := ?a2
+    t := (x, x)
+    print(-t)
+    print(-(x, x))
+    print(-((x, 1), (x, 2)))
+    print(t + t)
+    print(t - (y, x))
+    print(t * t)
+    print(t / 2)
+    print(t == (x, x))
+    print(t < (x, y))
+    print(t <= t)
+    lo := ?a1
+    hi := ?a2
+    if lo <= hi do
+        print(-(lo, hi))
+        print((lo, hi) - (hi, lo))
+    end
+    if lo == hi do
+        print(-(hi, lo))
+    end
+    u := (t, t)
+    print(-u)
+    print(u == (t, t))
+    print(u + u)
+    print(u < u)
+    v := t
+    v = -v
+    print(v)
+    print((v, t) - (t, v))
+    s := ?as1:str
+    w := (s, s)
+    print(w + w)
+    print(w == (s, s))
+    print(w < w)
+    f := ?af1:float
+    print(-(f, f))
+    print((f, f) / (2.0, 4.0))
+    print((f, f) - (f, f))
+    l := [x, x]
+    print(l == [x, x])
+    print([t, t] == [(x, x), t])
+    p := P { x: x, y: x }
+    print(p == P { x: x, y: x })
+end
+'''})
     return out
 
 
